@@ -305,6 +305,9 @@ class World:
         self.BALIN = fresh_parse("SELECT balance, account IN (SELECT account FROM #postings WHERE number > 100) AS m FROM #postings WHERE year = 2019 AND month = 2")
         # the same regular expression used by functions with different matching semantics (search / anchored match / ~)
         self.GREP = select([(F('grep', C('b'), k), 'g'), (F('grepn', C('(a)|(b)'), k, C(0)), 'gn'), (A.Match(k, C('b')), 'm')], from_='t')
+        # the SAME pattern texts through the case-insensitive operator only (a matcher cached by pattern text alone would
+        # carry the flags of whichever construct used the text first)
+        self.MATCHONLY = select([(k, None), (A.Match(k, C('b')), 'm'), (A.NotMatch(k, C('(a)|(b)')), 'n'), (A.Match(k, C('o')), 'o')], from_='t')
         self.FINDFIRST = fresh_parse("SELECT findfirst('o', tags) AS f, findfirst('b', other_accounts) AS g, grep('o', narration) AS n FROM #postings WHERE year = 2019 AND month <= 2")
         self.PRINTQ = fresh_parse('PRINT FROM year = 2019 AND month = 1')
         self.ENTRIES = fresh_parse("SELECT type, date FROM #entries WHERE type != 'transaction' AND type != 'open' ORDER BY date, type")
@@ -337,6 +340,7 @@ class World:
             ('TEXTQ', lambda: c.execute(SHELL_QUERY_TEXT)),
             ('ENTRIES', lambda: c.execute(self.ENTRIES)),
             ('SUMINV', lambda: c.execute(self.SUMINV)),
+            ('MATCHONLY', lambda: c.execute(self.MATCHONLY)),
             ('SUBQ2', lambda: c.execute(self.SUBQ2)),
             ('SUBQSTAR', lambda: c.execute(self.SUBQSTAR)),
         ]
